@@ -8,9 +8,9 @@ import unicodedata
 
 from hypothesis import strategies as st
 
-from conda_content_trust import common as C
+from conda_content_trust import authentication as A, common as C, signing as S
 
-from vlib import configrun, gen_json as G
+from vlib import configrun, gen_json as G, keys, related
 from vlib.ref_canon import canon, jeq
 from vlib.runner import Unit, Violation
 
@@ -221,6 +221,71 @@ def check_file(case):
     return {"nontrivial": bool(f), "labels": sorted(f) or ["plain"]}
 
 
+# ---- unit 3b: histories - the bytes follow the value, not the object or an earlier call ------------
+
+def check_history(case):
+    import copy
+    v = copy.deepcopy(case["v"])
+    steps = 0
+    if _ser(v) != canon(v):
+        raise Violation("bytes differ from the published format", bucket="format differs")
+    # the very same object, changed in place, serialized again
+    for mut in (related.inplace_mutate_nested, related.inplace_mutate):
+        if mut(v):
+            steps += 1
+            if _ser(v) != canon(v):
+                raise Violation("after changing the SAME object in place, canonserialize returns bytes that are not "
+                                "the canonical bytes of its current value", bucket="stale bytes (identity)")
+    # a value that is == and hash-equal in Python but a different JSON value, right after the original
+    v = copy.deepcopy(case["v"])
+    _ser(v)
+    r = related.eq_retype(v)
+    if r is not None:
+        steps += 1
+        if _ser(r) != canon(r):
+            raise Violation("after serializing v, an ==-equal but different JSON value (1/True/1.0) gets v's bytes",
+                            bucket="stale bytes (equality)")
+    # the bytes that are signed and verified follow the value too
+    seed = keys.POOL[case["k"] % len(keys.POOL)]
+    pub = keys.pub_hex(seed)
+    env = S.wrap_as_signable(case["v"])
+    S.sign_signable(env, C.PrivateKey.from_bytes(seed))
+
+    def verdict(e):
+        try:
+            A.verify_signable(e, [pub], 1)
+            return True
+        except C.SignatureError:
+            return False
+        except Exception as ex:
+            raise Violation("verify_signable raised %s on an envelope made by wrap_as_signable/sign_signable: %s"
+                            % (type(ex).__name__, str(ex)[:120]), bucket="verify raises " + type(ex).__name__)
+
+    if not verdict(env):
+        raise Violation("freshly signed envelope does not verify", bucket="sign/verify bytes differ")
+    if type(env["signed"]) in (dict, list):
+        steps += 1
+        saved = copy.deepcopy(env["signed"])
+        related.inplace_mutate(env["signed"])
+        if verdict(env):
+            raise Violation("signature still verifies after the signed object was changed in place: the verified bytes "
+                            "are not a function of the current JSON value", bucket="stale verified bytes")
+        if verdict(copy.deepcopy(env)):
+            raise Violation("signature verifies on a changed deep copy", bucket="stale verified bytes")
+        if type(env["signed"]) is dict:
+            for k in [k for k in env["signed"] if k not in saved]:
+                del env["signed"][k]
+        else:
+            del env["signed"][len(saved):]
+        if not verdict(env):
+            raise Violation("after restoring the value in place the signature no longer verifies",
+                            bucket="stale verified bytes")
+        if verdict(env) != verdict(copy.deepcopy(env)):
+            raise Violation("an equal-valued deep copy gets a different verdict", bucket="identity dependence")
+    f = G.features(case["v"])
+    return {"nontrivial": steps >= 2, "labels": ["steps=%d" % steps] + sorted(f)[:3]}
+
+
 # ---- unit 4: every code point, exhaustively -----------------------------------------
 
 def enum_codepoints(tier):
@@ -276,6 +341,10 @@ UNITS = [
          doc="a strict one-leaf change of the JSON value always changes the bytes"),
     Unit("file", check_file, strategy=lambda: st.builds(lambda v: {"v": v}, G.payloads),
          quick=300, thorough=8000, doc="write_metadata_to_file writes exactly the canonical bytes"),
+    Unit("history", check_history, strategy=lambda: st.builds(lambda v, k: {"v": v, "k": k}, G.payloads,
+                                                            st.integers(0, 15)),
+         quick=600, thorough=20000,
+         doc="same object changed in place / ==-equal other JSON value / sign-verify around in-place edits: bytes follow the value"),
     Unit("codepoints", check_codepoints, enumerate=enum_codepoints, exhaustive=True,
          doc="every Unicode code point (incl. lone surrogates) as element, as key and inside a string"),
     Unit("config", check_config, strategy=_corpus_and_config, quick=24, thorough=400,
